@@ -10,8 +10,19 @@ Everything is stated for an arbitrary sample/gain type `α` with `+`, `*`, `0`, 
 exact arithmetic. The hypotheses `Spec.wf fs nch s` (direct indices name a column numpy accepts, delays
 round to `≥ 0` samples) describe the specs the real code does not reject; see the examples at the end
 for what happens outside.
+
+The headline theorems are also stated against `meaningStrict` (independent, partial: `none` on ragged
+input, bad indices, negative delays): `meaning_eq_meaningStrict`, `processor_eq_meaningStrict`.
+The ms → samples conversion of `init_delay` is a binary64 computation in the code (`delaySamplesF`);
+`processorF_eq_meaningStrict` is the property for the processors run with that conversion, under
+`Spec.floatExact`; `float_delay_counterexample` shows that hypothesis cannot be dropped (a genuine,
+benign deviation of the code from "nearest sample" within an ulp of a half sample).
 -/
 import Earverif.Proofs.C20
+import Earverif.Proofs.C20Strict
+import Earverif.Proofs.C20Float
+
+set_option linter.unusedSimpArgs false
 
 namespace Earverif.TrackSpec
 
@@ -169,7 +180,10 @@ omit [DecidableEq α] in
 get_track_spec(c.inputChannelFormat), c) for c in matrix]), block_format.gain)` built by
 `MatrixAllocationPack.output_channel_allocation` for a matrix channel means: the sum over its
 coefficients of the (recursively obtained) input channel signal scaled by the coefficient gain and
-delayed by the coefficient delay, all scaled by the block format gain. -/
+delayed by the coefficient delay, all scaled by the block format gain.
+(That the spec the item-selection model builds, `Adm.matrixSpec`, IS `packSpec` of the channel tree of the
+document: `Earverif.Adm.matrixSpec_eq_packSpec`, Proofs/C06Matrix.lean; applied to selected items in
+`Earverif.Adm.matrixTrack_meaning` / `matrix_item_spec_meaning`, Props/C06.lean.) -/
 theorem matrix_pack_spec_meaning (fs : Int) (nch : Nat) (cs : List (MChan α × Option α × Option Rat)) (g : α)
     (x : List (List α)) :
     meaning fs nch (packSpec (.matrixCh cs g)) x =
@@ -232,6 +246,99 @@ example : isErr (runBuilt 48000 3 (.gain (.mix []) 2 : Spec Rat) []) .notSimplif
 example : isErr (match trackProcessor (.matrix (.direct 0) none (some 0) : Spec Rat) with
     | .ok p => runR 3 p [(48000, [[1, 2, 3]]), (44100, [[1, 2, 3]])]
     | .error e => .error e) .sampleRate = true := by decide +kernel
+
+/-! ## the strict literal meaning (independent of `step`'s helpers, undefined on ragged input) -/
+
+section Strict
+variable {α : Type} [Sample α]
+
+/-- **meaning_eq_meaningStrict.**  For input of shape `(n, nch)` (every frame `nch` wide: `Rect`) and
+a spec inside the quantifier, the independently defined, partial `meaningStrict` (no `chanIdx` /
+`getD` / `zipWith` / `take`) is defined and equals the totalised `meaning`; on ragged input or
+outside the quantifier it is undefined, so an agreement "for the wrong reason" is impossible. -/
+theorem meaning_eq_meaningStrict (fs : Int) (nch : Nat) (s : Spec α) (x : List (List α)) :
+    (Rect nch x → s.wf fs nch = true → meaningStrict fs nch s x = some (meaning fs nch s x)) ∧
+    (¬ Rect nch x → meaningStrict fs nch s x = none) ∧
+    (s.wf fs nch = false → meaningStrict fs nch s x = none) :=
+  ⟨fun hx hw => meaningStrict_eq fs nch x hx s hw, fun hx => meaningStrict_ragged fs nch x hx s,
+   fun hw => meaningStrict_not_wf fs nch x s hw⟩
+
+omit [Sample α] in
+theorem rect_flatten {nch : Nat} {parts : List (List (List α))} (h : ∀ b ∈ parts, Rect nch b) :
+    Rect nch parts.flatten := by
+  intro fr hfr
+  obtain ⟨b, hb, hfb⟩ := List.mem_flatten.mp hfr
+  exact h b hb fr hfb
+
+variable [DecidableEq α]
+
+/-- **processor_eq_meaningStrict (C20, exact delay conversion).**  `TrackProcessor(spec)` fed any
+partition of an `(n, nch)` input returns, block by block, the strict literal meaning of the spec on
+the whole input (which is defined). -/
+theorem processor_eq_meaningStrict (fs : Int) (nch : Nat) (s : Spec α) (hwf : s.wf fs nch = true)
+    (parts : List (List (List α))) (hrect : ∀ b ∈ parts, Rect nch b) :
+    ∃ v, meaningStrict fs nch s parts.flatten = some v ∧
+      runSpec fs nch s parts = .ok (chunks (parts.map List.length) v) ∧
+      (chunks (parts.map List.length) v).flatten = v := by
+  refine ⟨meaning fs nch s parts.flatten, meaningStrict_eq fs nch _ (rect_flatten hrect) s hwf, ?_⟩
+  exact processor_eq_meaning fs nch s hwf parts
+
+/-- **processorF_eq_meaningStrict (C20, the code's binary64 delay conversion).**  The processors as the
+code runs them — `init_delay` evaluated in binary64 (`delaySamplesF`) — return the strict literal
+meaning (delay = nearest sample in exact arithmetic) for every spec inside the quantifier whose
+coefficient delays convert to the same number of samples in binary64 as exactly
+(`Spec.floatExact`, decidable; sufficient condition: `delaySamplesF_eq_of_margin` /
+`floatExact_of_margin` in `Proofs/C20FloatMargin.lean`, which needs Mathlib and is kept out of this file
+because `Props/C02.lean` and `Props/C06.lean` import it).  Without that
+hypothesis the statement is false: `float_delay_counterexample`. -/
+theorem processorF_eq_meaningStrict (fs : Int) (nch : Nat) (s : Spec α) (hwf : s.wf fs nch = true)
+    (hfe : s.floatExact fs = true) (parts : List (List (List α))) (hrect : ∀ b ∈ parts, Rect nch b) :
+    ∃ v, meaningStrict fs nch s parts.flatten = some v ∧
+      runSpecF fs nch s parts = .ok (chunks (parts.map List.length) v) ∧
+      (chunks (parts.map List.length) v).flatten = v := by
+  obtain ⟨v, h1, h2, h3⟩ := processor_eq_meaningStrict fs nch s hwf parts hrect
+  exact ⟨v, h1, by rw [runSpecF_eq fs nch s hfe parts]; exact h2, h3⟩
+
+/-- `MultiTrackProcessor` as the code runs it -/
+theorem multi_processorF_eq_meaning (fs : Int) (nch : Nat) (ss : List (Spec α)) (hne : ss ≠ [])
+    (hwf : Spec.wfList fs nch ss = true) (hfe : Spec.floatExactList fs ss = true)
+    (parts : List (List (List α))) :
+    runMultiSpecF fs nch ss parts =
+      .ok (stackRuns (parts.map List.length) (ss.map fun s =>
+        chunks (parts.map List.length) (meaning fs nch s parts.flatten))) := by
+  rw [runMultiSpecF_eq fs nch ss hfe parts]
+  exact multi_processor_eq_meaning fs nch ss hne hwf parts
+
+end Strict
+
+/-- the exact value of the binary64 number `0.052083333333333336` (the double nearest to 2.5/48 ms,
+i.e. to two and a half samples at 48 kHz; it lies above 2.5/48 by 3.5e-18) -/
+def tieDelay : Rat := mkRat 7505999378950827 144115188075855872
+
+/-- **float_delay_counterexample.**  Sample rate 48000, coefficient delay 0.052083333333333336 ms:
+`48000·delay/1000 = 2.5000000000000001…` samples, whose nearest sample is 3, but in binary64
+`48000*delay` rounds to exactly 2500.0, so the code's `ceil(2.5 - 0.5)` gives 2.  The processors as
+the code runs them delay an impulse by 2 samples, the literal meaning by 3.  (Run on the real code
+by `harness/c20.py`, tag `float-delay-near-tie`.) -/
+theorem float_delay_counterexample :
+    delaySamplesF 48000 tieDelay = 2 ∧ delaySamples 48000 tieDelay = 3 ∧
+    Ieee.rn53 tieDelay = tieDelay ∧
+    (.matrix (.direct 0) none (some tieDelay) : Spec Rat).wf 48000 1 = true ∧
+    isOk (runSpecF 48000 1 (.matrix (.direct 0) none (some tieDelay) : Spec Rat) [[[1], [0]], [[0], [0]]])
+      [[0, 0], [1, 0]] = true ∧
+    meaningStrict 48000 1 (.matrix (.direct 0) none (some tieDelay) : Spec Rat) [[1], [0], [0], [0]]
+      = some [0, 0, 0, 1] := by decide +kernel
+
+/-- ragged input: a frame of the wrong width makes the strict meaning undefined, whereas the
+totalised `meaning` (and `step`) silently read 0 for the missing sample -/
+example : meaningStrict 48000 2 (.direct 1 : Spec Rat) [[1, 2], [3]] = none ∧
+    meaning 48000 2 (.direct 1 : Spec Rat) [[1, 2], [3]] = [2, 0] := by decide +kernel
+/-- non-vacuity: `exSpec` is float-exact at 48 kHz, its strict meaning is defined -/
+example : exSpec.floatExact 48000 = true ∧
+    meaningStrict 48000 3 exSpec [[1, 2, 3], [4, 5, 6], [7, 8, 9], [1, 1, 1], [2, 2, 2]]
+      = some [6, 33/2, 30, 63/2, 87/2] := by decide +kernel
+example : Rect 3 ([[1, 2, 3], [4, 5, 6]] : List (List Rat)) := by
+  intro fr h; simp at h; rcases h with rfl | rfl <;> rfl
 
 end Examples
 
